@@ -22,7 +22,7 @@ package router
 
 //@ func TagSource$1
 //@ records source
-//@ props C19 C08
+//@ props C19 C08 C20
 //@ nopanic C13 C12 C10 C08
 // a JSON tag routes only if it is exactly a receiver object: it is decoded strictly (unknown fields refused), so
 // that {"type":"http","url":...} - no data, a stray field - does not route (C08: no task that can never be delivered)
